@@ -415,6 +415,9 @@ theorem exec_th_other (s : Sys) (t t2 : Nat) (op : Op) (hne : t2 ≠ t) : (exec 
       · rfl
   | closeUnder => simp only [exec]; exact Sys.closeUnder_th_other s t t2 hne
   | collectUnder x => simp only [exec]; exact Sys.collectUnder_th_other s t t2 x hne
+  | unwind =>
+    simp only [exec]
+    rw [Sys.th_setTh_other _ _ _ _ hne, foldl_closeGuard_th_other _ _ _ _ hne]
 
 end Fastrace
 
